@@ -1430,4 +1430,247 @@ theorem solve_congr (P : Params C D) (cfg : Cfg) (d1 d2 : Draws D) (hag : Draws.
 
 end Misc
 
+/-! ## Transformation probabilities stay a probability vector -/
+
+theorem foldl_add_init (l : List Rat) (a : Rat) : l.foldl (· + ·) a = a + l.foldl (· + ·) 0 := by
+  induction l generalizing a with
+  | nil => simp only [List.foldl_nil]; grind
+  | cons x rest ih =>
+    simp only [List.foldl_cons]
+    rw [ih (a + x), ih (0 + x)]
+    grind
+
+theorem sumQ_cons (x : Rat) (l : List Rat) : sumQ (x :: l) = x + sumQ l := by
+  unfold sumQ
+  simp only [List.foldl_cons]
+  rw [foldl_add_init]
+  grind
+
+theorem sumQ_nil : sumQ [] = 0 := rfl
+
+theorem sumQ_map_mul (l : List Rat) (c : Rat) : sumQ (l.map (· * c)) = sumQ l * c := by
+  induction l with
+  | nil => simp [sumQ_nil]
+  | cons x rest ih => simp only [List.map_cons, sumQ_cons, ih]; grind
+
+theorem sumQ_pos (l : List Rat) (hne : l ≠ []) (hp : ∀ x ∈ l, 0 < x) : 0 < sumQ l := by
+  induction l with
+  | nil => exact absurd rfl hne
+  | cons x rest ih =>
+    rw [sumQ_cons]
+    have hx : 0 < x := hp x List.mem_cons_self
+    by_cases hr : rest = []
+    · subst hr; rw [sumQ_nil]; grind
+    · have := ih hr (fun y hy => hp y (List.mem_cons_of_mem _ hy))
+      grind
+
+/-- a probability vector: positive entries summing to one -/
+def IsDist (p : TransProbs) : Prop := (∀ kv ∈ p, 0 < kv.2) ∧ sumQ (p.map (·.2)) = 1
+
+theorem normalize_isDist (p : TransProbs) (hne : p ≠ []) (hp : ∀ kv ∈ p, 0 < kv.2) :
+    IsDist (normalizeTransProb p) ∧ (normalizeTransProb p).map (·.1) = p.map (·.1) := by
+  have hpos : 0 < sumQ (p.map (·.2)) := by
+    apply sumQ_pos
+    · simpa using hne
+    · intro x hx
+      obtain ⟨kv, hkv, rfl⟩ := List.mem_map.mp hx
+      exact hp kv hkv
+  refine ⟨⟨?_, ?_⟩, ?_⟩
+  · intro kv hkv
+    unfold normalizeTransProb at hkv
+    obtain ⟨kv0, h0, rfl⟩ := List.mem_map.mp hkv
+    have h1 := hp kv0 h0
+    have hinv : 0 < 1 / sumQ (p.map (·.2)) := by
+      rw [Rat.div_def, Rat.one_mul]
+      exact Rat.inv_pos.mpr hpos
+    exact Rat.mul_pos h1 hinv
+  · unfold normalizeTransProb
+    simp only [List.map_map, Function.comp_def]
+    have : (p.map fun kv => kv.2 * (1 / sumQ (p.map (·.2)))) = (p.map (·.2)).map (· * (1 / sumQ (p.map (·.2)))) := by
+      simp [List.map_map, Function.comp_def]
+    rw [this, sumQ_map_mul]
+    have hne0 : sumQ (p.map (·.2)) ≠ 0 := by grind
+    rw [Rat.div_def, Rat.one_mul]
+    exact Rat.mul_inv_cancel _ hne0
+  · unfold normalizeTransProb
+    simp [List.map_map, Function.comp_def]
+
+theorem update_pos (p : TransProbs) (k : TKind) (f : Rat → Rat) (hp : ∀ kv ∈ p, 0 < kv.2)
+    (hf : ∀ v, 0 < v → 0 < f v) : ∀ kv ∈ p.update k f, 0 < kv.2 := by
+  intro kv hkv
+  unfold TransProbs.update at hkv
+  obtain ⟨kv0, h0, rfl⟩ := List.mem_map.mp hkv
+  split
+  · exact hf _ (hp kv0 h0)
+  · exact hp kv0 h0
+
+theorem update_keys (p : TransProbs) (k : TKind) (f : Rat → Rat) : (p.update k f).map (·.1) = p.map (·.1) := by
+  unfold TransProbs.update
+  simp only [List.map_map, Function.comp_def]
+  apply List.map_congr_left
+  intro kv _
+  split <;> rfl
+
+theorem update_ne_nil (p : TransProbs) (k : TKind) (f : Rat → Rat) (hne : p ≠ []) : p.update k f ≠ [] := by
+  unfold TransProbs.update
+  simpa using hne
+
+theorem maxQ_pos (a : Rat) : 0 < maxQ a (1 / 100) := by
+  unfold maxQ
+  split
+  · decide +kernel
+  · have : (0 : Rat) < 1 / 100 := by decide +kernel
+    grind
+
+theorem minQ_pos (a b : Rat) (ha : 0 < a) (hb : 0 < b) : 0 < minQ a b := by
+  unfold minQ; split <;> assumption
+
+/-- `adapt_probabilities` turns any positive table into a probability vector with the same keys in the same order
+    (every `n_stop`, every number of emitters) -/
+theorem adapt_isDist (nStop nEmitter : Nat) (p : TransProbs) (hne : p ≠ []) (hp : ∀ kv ∈ p, 0 < kv.2) :
+    IsDist (adaptProbabilities nStop nEmitter p) ∧ (adaptProbabilities nStop nEmitter p).map (·.1) = p.map (·.1) := by
+  unfold adaptProbabilities
+  have hd : (0 : Rat) ≤ 1 / (nStop : Rat) := by
+    rw [Rat.div_def, Rat.one_mul]
+    by_cases h0 : nStop = 0
+    · subst h0; decide +kernel
+    · have : (0 : Rat) < (nStop : Rat) := by
+        have : 0 < nStop := by omega
+        exact_mod_cast this
+      exact Rat.le_of_lt (Rat.inv_pos.mpr this)
+  have f1 : ∀ v : Rat, 0 < v → 0 < maxQ (v - 1 / (nStop : Rat) / 3) (1 / 100) := fun v _ => maxQ_pos _
+  have f3 : ∀ v : Rat, 0 < v → 0 < minQ (v + 1 / (nStop : Rat)) (99 / 100) := by
+    intro v hv
+    apply minQ_pos
+    · grind
+    · decide +kernel
+  simp only
+  have p1 := update_pos p .addEmitterOneQubitOp _ hp f1
+  have p2 := update_pos _ .replacePhotonOneQubitOp _ p1 f1
+  have p3 := update_pos _ .removeOp _ p2 f3
+  have n3 : ((p.update .addEmitterOneQubitOp fun v => maxQ (v - 1 / (nStop : Rat) / 3) (1 / 100)).update
+      .replacePhotonOneQubitOp fun v => maxQ (v - 1 / (nStop : Rat) / 3) (1 / 100)).update .removeOp
+      (fun v => minQ (v + 1 / (nStop : Rat)) (99 / 100)) ≠ [] :=
+    update_ne_nil _ _ _ (update_ne_nil _ _ _ (update_ne_nil _ _ _ hne))
+  split
+  · have p4 := update_pos _ .addEmitterCnot _ p3 f1
+    obtain ⟨g1, g2⟩ := normalize_isDist _ (update_ne_nil _ _ _ n3) p4
+    exact ⟨g1, by rw [g2, update_keys, update_keys, update_keys, update_keys]⟩
+  · obtain ⟨g1, g2⟩ := normalize_isDist _ n3 p3
+    exact ⟨g1, by rw [g2, update_keys, update_keys, update_keys]⟩
+
+/-- the initial tables of both solvers and of `randomize_circuit` are probability vectors -/
+theorem init_tables_isDist (nEmitter : Nat) :
+    IsDist (initTransProbsEvo nEmitter) ∧ IsDist (initTransProbsHybrid nEmitter) ∧ IsDist (randomizeTransProbs nEmitter) := by
+  refine ⟨?_, ?_, ?_⟩
+  · unfold initTransProbsEvo
+    apply (normalize_isDist _ (by simp) _).1
+    intro kv hkv
+    split at hkv <;> simp at hkv <;> rcases hkv with rfl | rfl | rfl | rfl <;> decide +kernel
+  · unfold initTransProbsHybrid
+    apply (normalize_isDist _ (by simp) _).1
+    intro kv hkv
+    split at hkv <;> simp at hkv <;> rcases hkv with rfl | rfl | rfl | rfl | rfl <;> decide +kernel
+  · unfold randomizeTransProbs
+    apply (normalize_isDist _ (by simp) _).1
+    intro kv hkv
+    split at hkv <;> simp at hkv <;> rcases hkv with rfl | rfl | rfl | rfl <;> decide +kernel
+
+/-- the counting loop of `choiceIndex`: at most one per entry, and the last cumulative sum is not counted when it
+    exceeds `u` -/
+theorem choiceIndex_go_lt (total u : Rat) : ∀ (l : List Rat) (acc : Rat) (cnt : Nat), l ≠ [] →
+    ¬ ((acc + sumQ l) / total ≤ u) → choiceIndex.go u total acc cnt l < cnt + l.length := by
+  intro l
+  induction l with
+  | nil => intro acc cnt h; exact absurd rfl h
+  | cons x rest ih =>
+    intro acc cnt _ hlast
+    unfold choiceIndex.go
+    simp only
+    by_cases hr : rest = []
+    · subst hr
+      rw [sumQ_cons, sumQ_nil] at hlast
+      have e : acc + (x + 0) = acc + x := by grind
+      rw [e] at hlast
+      simp only [hlast, if_false, choiceIndex.go, List.length_cons, List.length_nil]
+      omega
+    · have hlast' : ¬ ((acc + x + sumQ rest) / total ≤ u) := by
+        rw [sumQ_cons] at hlast
+        have e : acc + (x + sumQ rest) = acc + x + sumQ rest := by grind
+        rw [e] at hlast; exact hlast
+      simp only [List.length_cons]
+      by_cases hc : (acc + x) / total ≤ u
+      · simp only [hc, if_true]
+        have := ih (acc + x) (cnt + 1) hr hlast'
+        omega
+      · simp only [hc, if_false]
+        have := ih (acc + x) cnt hr hlast'
+        omega
+
+/-- `np.random.choice(len(p), p=p)` returns a valid index: for a non-empty weight list with positive total and a
+    uniform draw `u < 1`, `choiceIndex p u < len(p)` -/
+theorem choiceIndex_lt (p : List Rat) (u : Rat) (hne : p ≠ []) (hpos : 0 < sumQ p) (hu : u < 1) :
+    choiceIndex p u < p.length := by
+  unfold choiceIndex
+  have h := choiceIndex_go_lt (sumQ p) u p 0 0 hne (by
+    have e : (0 : Rat) + sumQ p = sumQ p := by grind
+    rw [e, Rat.div_def, Rat.mul_inv_cancel _ (by grind)]
+    grind)
+  simpa using h
+
+
+section ProbRun
+variable {C D : Type}
+
+theorem IsDist.ne_nil {p : TransProbs} (h : IsDist p) : p ≠ [] := by
+  intro hp
+  subst hp
+  have := h.2
+  simp [sumQ_nil] at this
+
+theorem generation_transProbs (P : Params C D) (cfg : Cfg) (dr : Draws D) (g : Nat) {s s' : St C}
+    (hres : generation P cfg dr g s = .ok s') :
+    s'.transProbs = if cfg.useAdaptProbability then adaptProbabilities cfg.nStop cfg.nEmitter s.transProbs
+      else s.transProbs := by
+  unfold generation at hres
+  split at hres
+  · simp at hres
+  · split at hres
+    · simp at hres
+    · simp only at hres
+      split at hres
+      · simp at hres
+      · split at hres
+        · split at hres
+          · simp at hres
+          · simp only [Except.ok.injEq] at hres
+            subst hres; rfl
+        · simp only [Except.ok.injEq] at hres
+          subst hres; rfl
+
+/-- the transformation probabilities handed to `np.random.choice` are a probability vector with the same keys in the
+    same order in every generation of every run -/
+theorem generations_transProbs (P : Params C D) (cfg : Cfg) (dr : Draws D) :
+    ∀ (fuel g : Nat) {s s' : St C}, IsDist s.transProbs → generations P cfg dr g fuel s = .ok s' →
+      IsDist s'.transProbs ∧ s'.transProbs.map (·.1) = s.transProbs.map (·.1) := by
+  intro fuel
+  induction fuel with
+  | zero => intro g s s' hd hres; simp [generations] at hres; subst hres; exact ⟨hd, rfl⟩
+  | succ fuel ih =>
+    intro g s s' hd hres
+    simp only [generations] at hres
+    split at hres
+    · simp at hres
+    · next s1 hs1 =>
+      have h1 := generation_transProbs P cfg dr g hs1
+      have hd1 : IsDist s1.transProbs ∧ s1.transProbs.map (·.1) = s.transProbs.map (·.1) := by
+        rw [h1]
+        split
+        · exact adapt_isDist cfg.nStop cfg.nEmitter s.transProbs hd.ne_nil hd.1
+        · exact ⟨hd, rfl⟩
+      obtain ⟨g1, g2⟩ := ih (g + 1) hd1.1 hres
+      exact ⟨g1, g2.trans hd1.2⟩
+
+end ProbRun
+
 end Graphiq.Evo
